@@ -31,7 +31,7 @@ func dumpAnalysis(fr []text.TextFragment) {
 	for i, l := range r.Lists.Lists {
 		fmt.Fprintf(w, "  list %d bbox=%.1f,%.1f %.1fx%.1f items=%d\n", i, l.BBox.X, l.BBox.Y, l.BBox.Width, l.BBox.Height, l.ItemCount)
 		for _, it := range l.Items {
-			fmt.Fprintf(w, "     item lvl=%d %q %q children=%d\n", it.Level, it.Prefix, it.Text, len(it.Children))
+			fmt.Fprintf(w, "     item lvl=%d %q %q children=%d lines=%d %q\n", it.Level, it.Prefix, it.Text, len(it.Children), len(it.Lines), lineTexts(it.Lines))
 		}
 	}
 	for i, e := range r.Elements {
